@@ -306,6 +306,7 @@ def run(tier, seed):
     # the repository's own tests as drivers: every recorded execution against the monitor half of System.tla
     from .. import suite
     suite.check(v, wd)
+    suite.design_check(v, [("System_dev_release.cfg", "FrameOrder"), ("System_dev_unlocked.cfg", "NoOverlap")])
     return v.finish(
         rule="cases = (holder, program counter) states of WorkspaceLock enumerated by TLC, each forced by parking the holder at the hook point "
              "while the 8 other actors of the cast run, plus seeded-delay runs; non-trivial = at least two mutating executions in the trace; "
